@@ -37,8 +37,13 @@ matrices); `B(cA) = c⁻¹ B(A)` for every `c ≠ 0`.
 **What is `_partial` / open** — see `amg_spd_contracting_partial` at the end: the smoothing inequality
 `Contr A (1 − N A)` is *not* proved for ILU(0)/ILU(k)/ILUP and Chebyshev (for those the abstract theorems apply once it
 is supplied), weak diagonal dominance of the *coarse* level matrices is a hypothesis (not derived from the fine matrix
-being an M-matrix), rescaled Galerkin operators (`scaled_galerkin`) are not covered, and the link from these matrix
-statements to the executable `Amg.cycle` model on arrays is not part of this file.
+being an M-matrix), rescaled Galerkin operators (`scaled_galerkin`) are not covered.
+
+**Bridge to the executable model** (§8): `model_cycle_is_matrix_recursion`, `model_cycle_error_contracts`,
+`model_apply_spd` transfer the matrix statements to `Amg.cycle` / `Amg.apply` on arrays for every model hierarchy that
+`Bridge.Realizes` an abstract one; the per-smoother fact `Bridge.SweepIs` (sweep = `x + N (f − A x)` with the `N` used
+here), exactness of the direct solver and the `matOf`-denotation of the Galerkin product / transposed restriction are
+the inputs still to be supplied by C06 / C16 / C03 / C08.
 -/
 set_option linter.unusedSectionVars false
 namespace Amgcl.C02b
@@ -50,6 +55,7 @@ variable {ι κ : Type*} [Fintype ι] [Fintype κ] [DecidableEq ι] [DecidableEq
 
 /-! ## 1. Error propagation -/
 
+omit [LinearOrder 𝕜] [IsStrictOrderedRing 𝕜] in
 /-- for the iteration `x ↦ x + B (f − A x)` and the exact solution `A x* = f` the error propagates by `1 − B A` -/
 theorem error_propagation (A B : Matrix ι ι 𝕜) (f x xs : ι → 𝕜) (hs : A *ᵥ xs = f) :
     xs - step A B f x = (1 - B * A) *ᵥ (xs - x) :=
@@ -60,6 +66,7 @@ example : (![2/3, 1/3] : Fin 2 → ℚ) - step Example.A2 (jacobiN (18/25) Examp
   error_propagation _ _ _ _ _ (by
     ext i; fin_cases i <;> simp [Example.A2, mulVec, dotProduct, Fin.sum_univ_succ] <;> norm_num)
 
+omit [LinearOrder 𝕜] [IsStrictOrderedRing 𝕜] in
 /-- **two-grid error formula**: pre-smoothing with `B₁`, coarse-grid correction `x += P B_c Pᵀ (f − A x)`,
 post-smoothing with `B₂` is one step with the preconditioner `seqB A (seqB A B₁ (P B_c Pᵀ)) B₂`, and its error
 propagation operator is `E = S_post · C · S_pre` with `C = 1 − P B_c Pᵀ A` -/
@@ -77,6 +84,7 @@ example (f x : Fin 2 → ℚ) :
       (gsNback Example.A2)) f x :=
   (twogrid_error_formula _ _ _ _ _ f x).1
 
+omit [LinearOrder 𝕜] [IsStrictOrderedRing 𝕜] in
 /-- **multilevel error formula**: on an inner level the cycle's error operator is
 `E_l = (S₂^npost · (1 − P B_{l+1} R A_l) · S₁^npre)^ncycle`; `k` steps from `x = 0` give `powB A B k · f` -/
 theorem cycle_error_formula (p : CycPrm) {n m : ℕ} (A N₁ N₂ : Matrix (Fin n) (Fin n) 𝕜) (P : Matrix (Fin n) (Fin m) 𝕜)
@@ -313,6 +321,7 @@ example : Contr Example.A4 (1 - gsN Example.A4 * Example.A4) ∧ Contr Example.A
 
 /-! ## 6. Scaling -/
 
+omit [LinearOrder 𝕜] [IsStrictOrderedRing 𝕜] in
 /-- **`B(cA) = c⁻¹ B(A)`** for every `c ≠ 0` (in particular every power of two): the hierarchy rebuilt for `c A` with
 the same transfer operators (Galerkin coarse operators `R (cA) P`) and a smoother whose sweep matrix scales inversely,
 `N(cA) = c⁻¹ N(A)`, has the cycle operator `c⁻¹ B` and the `apply` operator `c⁻¹ applyB` — for all cycle parameters -/
@@ -366,7 +375,9 @@ level (`Transfers.Good QWeakDD`) rather than derived from the fine matrix being 
 aggregation, false in general for smoothed aggregation — where Gauss–Seidel still needs nothing); (3) the rescaled
 Galerkin operator of `aggregation` with `over_interp ≠ 1` and the non-transposed restriction of `smoothed_aggr_emin`
 are outside `Hier.OK`; (4) `npre ≠ npost` gives contraction and positive definiteness (`vcycle_contraction`, `B_posDef`)
-but of course not symmetry; (5) the identification of `Hier.B` with the executable `Amg.cycle` on arrays. -/
+but of course not symmetry; (5) the identification of `Hier.B` with the executable `Amg.cycle` on arrays is proved
+(§8, `model_cycle_is_matrix_recursion`) *relative to* `Bridge.Realizes`, whose smoother/direct-solver/Galerkin inputs
+come from C06/C16/C03/C08 and are not discharged here for the real smoother models. -/
 theorem amg_spd_contracting_partial (sm : ProvedSmoother 𝕜) (hprm : sm.ParamOK) (p : CycPrm) (hnu : p.npre = p.npost)
     (hs : 0 < p.npre) (hc : 0 < p.ncycle) {k : ℕ} (hk : 0 < k) {n : ℕ} (A : Matrix (Fin n) (Fin n) 𝕜) (hA : IsSPD A)
     (T : Transfers 𝕜 n) (hT : T.Good sm.Q A) :
